@@ -585,7 +585,11 @@ func discharge(c *Ctx, goals []*Goal, o dischargeOpts) {
 				g.Output = fmt.Sprintf("VC too large: %d bytes", len(q))
 				return
 			}
-			best, all := race(q, o.Workdir, g.Name, o.Timeout, o.All)
+			to := o.Timeout
+			if g.ExpectSat && to > 3*time.Second {
+				to = 3 * time.Second
+			}
+			best, all := race(q, o.Workdir, g.Name, to, o.All && !g.ExpectSat)
 			g.Solver = best.Solver
 			g.Secs = best.Secs
 			g.Output = best.Output
